@@ -184,6 +184,12 @@ func runSelection(t *testing.T, tape *kernel.Tape) *kernel.Result {
 	}
 	opClient, opCtx, rtCtx := tape.Bool(3, "op-client"), tape.Bool(2, "op-ctx"), tape.Bool(2, "rt-ctx")
 	rtCtxDone := rtCtx && tape.Bool(4, "rt-ctx-already-cancelled")
+	// the reason phrase is the server's to choose: "404 No Such Pet" is a legal status line, and Message() is the line as sent
+	statusLine := fmt.Sprintf("%d %s", status, http.StatusText(status))
+	if tape.Bool(3, "custom-reason-phrase") {
+		statusLine = fmt.Sprintf("%d %s", status, []string{"No Such Pet", "OK then", "Try Later (maintenance)", "custom"}[tape.Choose(4, "reason")])
+		env.Fault("custom-reason-phrase")
+	}
 	res.Summary = fmt.Sprintf("A: content-type=%q (%s) registry=%06b catchall=%v default=%s status=%d opclient=%v opctx=%v rtctx=%v rtctxdone=%v", sp.header, sp.class, mask, catchAll, defMT, status, opClient, opCtx, rtCtx, rtCtxDone)
 	if sp.class != "plain" {
 		env.Fault("spelling-" + sp.class)
@@ -224,7 +230,7 @@ func runSelection(t *testing.T, tape *kernel.Tape) *kernel.Result {
 			}
 			h := hdrs.Clone()
 			h.Set("X-Served-By", tag)
-			return &http.Response{StatusCode: status, Status: fmt.Sprintf("%d %s", status, http.StatusText(status)), Header: h,
+			return &http.Response{StatusCode: status, Status: statusLine, Header: h,
 				Body: respBody(req.Context(), body, emptyBody), ContentLength: int64(len(body)), Request: req, Proto: "HTTP/1.1", ProtoMajor: 1, ProtoMinor: 1}, nil
 		})
 	}
@@ -437,8 +443,8 @@ func runSelection(t *testing.T, tape *kernel.Tape) *kernel.Result {
 		}
 	}
 	if readerRan {
-		if gotCode != status || gotMsg != fmt.Sprintf("%d %s", status, http.StatusText(status)) {
-			env.Violate("C13/response-altered", "status", "reader saw %d %q, server sent %d", gotCode, gotMsg, status)
+		if gotCode != status || gotMsg != statusLine {
+			env.Violate("C13/response-altered", "status", "reader saw %d %q, server sent %d %q", gotCode, gotMsg, status, statusLine)
 		}
 		if !bytes.Equal(gotBody, body) {
 			env.Violate("C13/response-altered", "body", "reader saw %d body bytes, server sent %d", len(gotBody), len(body))
